@@ -8,8 +8,8 @@ checks = {
  "C01": dict(technique="runtime monitoring: recovered-panic / logical-step hook (step and token budgets, token order) / CPU-watchdog / guarded-buffer / stdout-stderr monitors over hostile inputs, a complete lexical-context x byte enumeration and size-parametrised stress shapes",
              text="Hostile inputs (prefixes, token soup, byte mutations, splices, random bytes), the context x byte enumeration, every corpus/torture snippet and 32 adversarial shapes x versions of both families x {callback, nil}: every Parse call runs under recover, under the verif step/token budget hooks (a hang is a logical-step overrun), a per-case CPU watchdog with isolated confirmation, a canary-guarded input array and an fstat of stdout/stderr; hook step counts on k-fold replications and CPU time at n vs 8n check proportionality (three confirmations, else inconclusive).",
              note="Trusted: the verif hooks bound all non-advancing lexer work (sites listed in DESIGN §3); Go runtime bounds checks turn memory errors into panics.", ref="§6 C01"),
- "C02": dict(technique="runtime monitor: byte-equality oracle on print(parse(src)) with provenance writer, over generated/hostile/corpus sources",
-             text="Every input of the workload that parses with zero errors is printed and compared byte for byte with the source, under every version; the provenance writer localises the first differing chunk.",
+ "C02": dict(technique="runtime monitor: byte-equality oracle on print(parse(src)) with provenance writer, over generated/hostile/corpus sources; file-equality oracle on directories rewritten by the real CLI (-pb)",
+             text="Every input of the workload that parses with zero errors is printed and compared byte for byte with the source, under every version; the provenance writer localises the first differing chunk; the real CLI (-pb) is run over generated directories of silently parsing files (HTML/shebang/open-tag starts, every ending; 5 versions; GOMAXPROCS 1/2/16) and every file must be left byte-identical.",
              note="Only silent parses the workload reaches are observed.", ref="§6 C02"),
  "C03": dict(technique="runtime monitor: two reference-model oracles — a grammar-directed program generator with expected derivation (tree-first, minimal parentheses from PHP's precedence table) and an independent precedence-climbing reference parser over random unparenthesised token strings (string-first)",
              text="Generated valid programs of both families with their prescribed tree (kinds, roles, order, verbatim values) parsed under versions that have the syntax: any delivered error or structural difference refutes; PHP 7-only syntax must be rejected under 5.x and flexible heredocs before 7.3; random operator strings are judged by the reference parser (tree, or syntax error for non-associative chains). Construct, operator-pair and adjacent-operator coverage are reported.",
@@ -20,8 +20,8 @@ checks = {
  "C05": dict(technique="runtime monitor: node span oracle (min/max token offsets of the subtree, documented conventions) on error-free parses",
              text="For every node of every error-free tree of the workload: start/end = first/last own token under the documented conventions, nesting, sibling order, lines.",
              note="Conventions encoded are exactly those in the property text and DESIGN §6 C05.", ref="§6 C05"),
- "C06": dict(technique="runtime monitor over recorded error-callback event sequences; guaranteed-breaking edits (counting argument) as fault injection; callback-vs-nil and nested-parse (re-entrancy) differential monitors",
-             text="Valid generated programs with an edit that is invalid by a bracket/operator counting argument must deliver >= 1 error; every delivered error is checked for message, range, line, order; callback vs nil trees compared by full fingerprint.",
+ "C06": dict(technique="runtime monitor over recorded error-callback event sequences; guaranteed-breaking edits (counting argument, PHP 5 compile-time errors, unterminated last heredoc) as fault injection; callback-vs-nil and nested-parse (re-entrancy) differential monitors",
+             text="Valid generated programs with an edit that is invalid by a bracket/operator counting argument must deliver >= 1 error, as must PHP 5 compile-time errors (trait extends/implements, reference key) and a lengthened closing label of the last heredoc; every delivered error is checked for message, range, line, order; callback vs nil trees compared by full fingerprint.",
              note="'Invalid' is only asserted for edits invalid by construction.", ref="§6 C06"),
  "C07": dict(technique="runtime monitor: prefix-statement equality oracle and provenance checker on printed recovery trees",
              text="Statement lists with a benign malformed statement inserted: preceding statements must equal their stand-alone parse (tokens, positions), following ones must be present; every tree returned with errors is printed through the provenance writer: only source chunks, once, in order.",
@@ -35,8 +35,8 @@ checks = {
  "C10": dict(technique="runtime monitor: differential full-fingerprint oracle between the PHP5 and PHP7 grammars on generated common-subset programs",
              text="Common-subset programs (no PHP7-only syntax, no uniform-variable-syntax regroupings) in many layouts are parsed under 5.x and 7.x; kinds, values, tokens, free-floating content and positions must be identical.",
              note="Trusted: the generator's definition of the common subset (DESIGN §6 C10 scope decision).", ref="§6 C10"),
- "C11": dict(technique="Go race detector (twin run from a -race build, Gosched injection at the lexer hooks) over batches of concurrent pipelines; result equality against the sequential run computed afterwards; measured interleaving diversity; the real CLI under -race",
-             text="Batches of 2..32 goroutines x GOMAXPROCS {1,2,4,16} run parse/print/dump/traverse/resolve/format pipelines on different inputs, concurrent phase first and the sequential baseline afterwards in the same process; every result must equal the baseline; the -race twin reports de-duplicated race reports as violations and runs the CLI worker pool over a generated directory (-d -r -e -p -pb), comparing rewritten files and the multiset of dumps with the results obtained alone.",
+ "C11": dict(technique="Go race detector (twin run from a -race build, Gosched injection at the lexer hooks) over batches of concurrent pipelines; result equality against the sequential run computed afterwards; measured interleaving diversity; the real CLI under -race; sequential predecessor-independence monitor (Parse(X) repeated after offset-aligned predecessors)",
+             text="Batches of 2..32 goroutines x GOMAXPROCS {1,2,4,16} run parse/print/dump/traverse/resolve/format pipelines on different inputs, concurrent phase first and the sequential baseline afterwards in the same process; every result must equal the baseline; the -race twin reports de-duplicated race reports as violations and runs the CLI worker pool over a generated directory (-d -r -e -p -pb), comparing rewritten files and the multiset of dumps with the results obtained alone; every fourth case re-parses one input after each of a list of predecessors (itself, truncations, escaped-byte variants sharing its offsets, unrelated inputs) and requires the first result every time.",
              note="The race detector only sees interleavings that occur; diversity is measured and reported.", ref="§6 C11"),
  "C12": dict(technique="runtime monitor: recording visitor vs reflection pre-order oracle, exhaustive over node kinds x child-slot subsets, plus parsed trees",
              text="Every node kind of ast.Visitor x slot subsets (all 2^k for k<=12) traversed with a recording visitor and compared with the reflection pre-order; parsed trees additionally checked for shared node objects and sibling source order.",
@@ -56,8 +56,8 @@ checks = {
  "C17": dict(technique="runtime monitor: format/print/reparse round-trip structure oracle, idempotence and whitespace-layout-invariance oracles over generated programs, with reduction of a failing program to its focal construct",
              text="Unit programs (one focal kind, one slot configuration) and composites: format+print must re-parse silently to the same structure, be identical across whitespace layouts, and be a fixed point.",
              note="Known formatter defects are enumerated by signature in known-findings.jsonl.", ref="§6 C17"),
- "C18": dict(technique="runtime monitor over Pool.Get histories (pointer-distinctness and write-isolation oracle), exhaustive over a block-size grid plus long histories",
-             text="Every request count 0..4*size+3 for each block size of the grid, long histories (200k/1.5M requests) and large blocks, for both pools, single and two interleaved pools: the monitor observes every returned pointer and re-reads every object after writes through all others.",
+ "C18": dict(technique="runtime monitor over Pool.Get histories (pointer-distinctness and write-isolation oracle), exhaustive over a block-size grid plus long histories, pools of different sizes alive together, and several parse trees kept alive (objects pairwise distinct across trees)",
+             text="Every request count 0..4*size+3 for each block size of the grid, long histories (200k/1.5M requests) and large blocks, for both pools, single, two interleaved pools of one size and 2..5 of different sizes, plus 2..5 Parse calls (sequential or concurrent) whose trees stay alive: the monitor observes every returned pointer and re-reads every object after writes through all others.",
              note="Block sizes outside the grid are not observed.", ref="§6 C18"),
 }
 
